@@ -10,7 +10,8 @@ Constructs == {"assign", "chain", "augassign", "annassign", "annonly", "for", "a
                "setcomp", "dictcomp", "genexp", "nestedcomp", "walrus", "walrusarg", "walruscomp", "del", "import",
                "importas", "dotted", "from", "fromas", "fromstar", "relfrom", "except", "exceptbare", "param", "paramdefault",
                "paramannot", "paramstar", "paramkw", "paramposonly", "paramkwonly", "lambda", "lambdadefault", "global",
-               "nonlocal", "classdef", "funcdef", "decorated", "forelse", "withmulti", "trystar"}
+               "nonlocal", "classdef", "funcdef", "decorated", "forelse", "withmulti", "trystar", "importmulti",
+               "importmulti2", "importmulti3", "frommulti"}
 Shapes == {"name", "attr", "subscript", "starred", "tuple", "list", "paren", "nested", "attrchain", "slice"}
 Contexts == {"module", "def", "class", "asyncdef", "nesteddef", "method"}
 VARIABLES c, s, x
